@@ -204,7 +204,7 @@ def _eval_supported(cell, res):
     iface = cell["iface"]
     if cell["kind"] == "gauss":
         n = cell["n"]
-        fam = "Gaussian," + cell["par"]
+        fam = "Gaussian," + cell["par"].split("=")[0]
         tol = 1e-9
         build = lambda m, b, a, r: _gauss_target(cell["par"], n, m, b, a, r)
     else:
@@ -375,8 +375,11 @@ def _eval_unsupported(cell, res):
             res.outcomes.add("accepted-" + ("exact" if ok else "inexact:" + what))
             if not ok:
                 # legacy: one root cause (no structural validation at all) -> one signature
+                # new interface: one signature per hole of the validation; the clipped dependences share theirs
+                # (they coincide with the identity / reciprocal at the three points the validation probes)
                 sig = ("C10|%s|accepts-unsupported|inexact" % comp if iface == "legacy"
-                       else "C10|%s|accepts-unsupported|%s" % (comp, case))
+                       else "C10|%s|accepts-unsupported|%s" %
+                       (comp, "agrees-at-probe-points" if "min(" in case else case))
                 res.fail(sig, "unsupported dependence %r accepted and sampled approximately: drew Gamma(shape=%r, "
                          "rate=%r) but log-ratio to the target's own density varies over t=%s by %s" %
                          (case, info.get("shape"), info.get("rate"), grid, np.round(info.get("diff", 0), 6)),
